@@ -239,12 +239,23 @@ func Run(cs Case, c *vrt.Ctx) {
 	strs = func(v any) {
 		switch tv := v.(type) {
 		case string:
-			if tv == "$" || tv == "@" || tv == "$.asm" || tv == "@.asm" {
+			// anything that reads the root or something under $.asm can be stored under $.asm
+			// again (a list into its own element: [setall "$.asm.all[*]" $.asm.all])
+			if tv == "$" || tv == "@" || strings.HasPrefix(tv, "$.asm") || strings.HasPrefix(tv, "@.asm") {
 				cyclic = true
 			}
 		case []any:
-			for _, e := range tv {
-				strs(e)
+			skip := -1
+			if name, _, ok := isCall(tv); ok {
+				switch name {
+				case "set", "setall", "del", "delall":
+					skip = 1 // the target path is written to, not read
+				}
+			}
+			for i, e := range tv {
+				if i != skip {
+					strs(e)
+				}
 			}
 		}
 	}
